@@ -207,15 +207,17 @@ def gen_project(rng: random.Random, profile: str, idx: int = 0) -> dict:
             t.update(protocol='tap', tap='ok,bail')
         else:
             t.update(protocol='tap', tap='ok', rc=[rng.choice([1, 3])])
+    for t in seq:
         # suites
         r = rng.random()
         if r < 0.45:
             t['suites'] = [rng.choice(SUITES)]
         elif r < 0.6:
             t['suites'] = sorted(rng.sample(SUITES, 2))
-        # generous / disabled timeouts on everything that is not a victim
+        # generous or disabled (0 / negative = no limit, Unit-tests.md) timeouts on everything that is not a victim
         if not t['victim']:
-            t['timeout'] = rng.choice([None, None, 0, -1, 600, 1000] if profile != 'victims' else [0, -1, 600, 1000])
+            t['timeout'] = rng.choice([None, None, 0, -1, -1, -7, -30, 600, 1000] if profile != 'victims'
+                                      else [0, -1, -3, 600, 1000])
 
     # priorities: non-increasing along seq, with random break points
     prio = rng.choice([0, 0, 10, 1000])
@@ -359,8 +361,8 @@ def gen_invocations(rng: random.Random, proj: dict, count: int) -> T.List[dict]:
             inv['maxfail'] = rng.choice([1, 1, 2, 3])
         elif r < 0.8:
             inv['suites'], inv['no_suites'] = _suite_sel(rng, proj)
-        if rng.random() < 0.15 and not has_victim:
-            inv['tmult'] = rng.choice([0, 2, 10, -1])
+        if rng.random() < 0.25 and not has_victim:
+            inv['tmult'] = rng.choice([0, 2, 10, -1, 0.5, 3])
         out.append(inv)
     return out
 
